@@ -220,6 +220,24 @@ def run_alpha_twin(prop: str, root: str, known) -> tuple[str, str]:
                 os.makedirs(os.path.dirname(dst), exist_ok=True)
                 with open(dst, "w", encoding="utf-8") as fh:
                     fh.write(out)
+        # ... and every renamable let-bound local of every .lpy source (sa/lispcanon.py)
+        from . import lispcanon
+        for d, _dn, fs in os.walk(base):
+            for f in fs:
+                if not f.endswith(".lpy"):
+                    continue
+                p = os.path.join(d, f)
+                rel = os.path.relpath(p, root)
+                with open(p, encoding="utf-8") as fh:
+                    try:
+                        out, k = lispcanon.rename_locals(fh.read(), rel)
+                    except (ValueError, core.AnalysisError):
+                        continue
+                n += k
+                dst = os.path.join(tmp, rel)
+                os.makedirs(os.path.dirname(dst), exist_ok=True)
+                with open(dst, "w", encoding="utf-8") as fh:
+                    fh.write(out)
         try:
             ref, _p, _m = analyse(prop, "quick", root, known=known)
             ctx, _p, _m = analyse(prop, "quick", root, overlay=tmp, known=known)
